@@ -1358,7 +1358,8 @@ class Scenario(object):
                         continue
                     tok = e_.description.split(' ')
                     try:
-                        same_fill = float(tok[1]) == float(d['qty']) and tok[2] == d['asset'].upper()
+                        same_fill = (float(tok[1]) == float(d['qty']) and tok[2] == d['asset'].upper()
+                                     and tok[3] == '%0.2f' % d['price'])       # (the description upper-cases the symbol)
                     except (ValueError, IndexError):
                         same_fill = False
                     if same_fill:
@@ -1724,6 +1725,24 @@ class Gen(object):
             return ['p_wd', pid, float(cash) * rng.choice([0.0, 0.1, 0.5, 1.0, rng.random()])]
         if r < 0.55:
             a = rng.choice(assets)
+            if len(assets) >= 2 and rng.random() < 0.04 and not any(p_.net for p_ in sc.model.ports[pid].pos.values()):
+                # a market-neutral book: long q of one asset, short q of another, both quoted alike - market value exactly
+                # 0.0 - and then the prices part
+                a1, a2 = rng.sample(assets, 2)
+                qt = rand_quote(rng, self.used)
+                q_ = rng.randint(1, 500)
+                self.tmax = next_time(rng, self.tmax)
+                t_open = self.tmax.normalize() + pd.Timedelta(hours=15)
+                while t_open < self.tmax or t_open.weekday() > 4:
+                    t_open = t_open + pd.Timedelta(days=1)
+                self.tmax = t_open
+                self.queue.append(['exec', pid, [[a1, q_, self.oid(pid)], [a2, -q_, self.oid(pid)]], str(t_open)])
+                self.tmax = self.tmax + pd.Timedelta(minutes=30)
+                self.queue.append(['update', str(self.tmax)])          # both legs marked at the same mid: market value 0.0
+                self.queue.append(['quote', {a1: rand_quote(rng, self.used)}])
+                self.tmax = self.tmax + pd.Timedelta(hours=1)
+                self.queue.append(['update', str(self.tmax)])
+                return ['quote', {a1: qt, a2: list(qt)}]
             if rng.random() < 0.07:
                 # a buy and a sell of the same size for one asset waiting in the same queue: filled in one update, the
                 # holding ends where it started (nothing is read in between)
@@ -1771,7 +1790,7 @@ class Gen(object):
             kinds += ['update_back', 'update_back', 'update_back', 'update_back_ok', 'update_back_pos', 'neg_mark', 'neg_mark', 'pf_sub_back', 'pf_sub_neg',
                       'pf_wd_back', 'pf_wd_neg', 'pf_wd_over', 'pf_txn_back', 'pf_mark_neg', 'pf_mark_back',
                       'pf_txn_behind_pos', 'pf_txn_behind_pos', 'pf_mark_behind_pos', 'pf_mark_repeat', 'pf_mark_ahead',
-                      'pf_mark_ahead']
+                      'pf_mark_ahead', 'pf_sub_ahead', 'pf_sub_ahead']
         k = rng.choice(kinds)
         amt = rand_amount(rng) + 0.01
         over = lambda x: float(max(x, 0.0)) * rng.choice([1.0, 1.0, 1.0000001, 1.5, 10.0]) + rng.choice([0.001, 0.004, 0.0098, 0.01, 1.0, 1e6])  # noqa
@@ -1882,6 +1901,23 @@ class Gen(object):
                                                          pd.Timedelta(days=2)])))
         nowish = str(max(clock, self.tmax))
         held = [a for a, p in mp.pos.items() if p.net != 0]
+        if k == 'pf_sub_ahead':
+            # a VALID direct portfolio subscription at a time ahead of the broker clock moves that portfolio's clock but not
+            # the marks of its holdings; a broker update to an instant in between is refused, and no holding of any
+            # portfolio may have been re-marked on the way
+            holders = [p_ for p_ in pids if any(q_.net != 0 for q_ in sc.model.ports[p_].pos.values())]
+            if len(holders) < 2:
+                return None
+            pid = holders[-1]
+            base = max([self.tmax, b.current_dt] + list(clocks.values()) +
+                       [pos_.current_dt for p_ in pids for pos_ in b.portfolios[p_].pos_handler.positions.values()])
+            ahead = base + pd.Timedelta(hours=rng.choice([1, 2, 30]))
+            between = base + (ahead - base) * rng.choice([0.25, 0.5, 0.999])
+            self.queue.append(['quote', self.quotes(len(sc.cfg['assets']))])
+            self.queue.append(['update', str(between)])
+            self.tmax = ahead + pd.Timedelta(minutes=1)
+            self.queue.append(['update', str(self.tmax)])
+            return ['pf_sub', pid, str(ahead), 10.0]
         if k == 'pf_mark_ahead':
             # a VALID direct portfolio request: one held asset is marked at a time ahead of the broker's clock (the
             # portfolio's own clock stays); the broker update to an instant before that mark is then refused, and the
@@ -2049,6 +2085,12 @@ def symmetry_pair(rng, acc, replay_of=None):
     from qstrader.broker.fee_model.percent_fee_model import PercentFeeModel
     from qstrader.execution.order import Order
     tie = rng.random() < 0.5
+    if replay_of is None and rng.random() < 0.12:
+        # a consideration a few billionths BELOW n + 0.5 for a small n: unambiguously rounds down
+        tie = False
+        near_n = rng.choice([0, 1, 2])
+        replay_of = (False, near_n + 0.5 - rng.choice([3e-9, 4e-9, 4.9e-9]) * (1 if near_n else 1), 1)
+        acc.count('C05:pairs_just_below_a_rounding_tie')
     if replay_of is not None:
         tie, price, qty = replay_of            # the same trade again, under another fee schedule
     elif tie:
